@@ -86,7 +86,7 @@ theorem corrspec_sum_eq_pearson (a b : List ℝ) (hl : a.length = b.length) (hn 
       nth (correlationSpectrumFull (fun j => (ζ ^ j).re) (fun j => -(ζ ^ j).im) a b false) k
         = ((dft ζ N (nth (removeBias a)) k).re * (dft ζ N (nth (removeBias b)) k).re
             + (dft ζ N (nth (removeBias a)) k).im * (dft ζ N (nth (removeBias b)) k).im)
-          / (Real.sqrt (dot (removeBias a) (removeBias a) * dot (removeBias b) (removeBias b)) * N) := by
+          / (Real.sqrt (dot (removeBias a) (removeBias a)) * Real.sqrt (dot (removeBias b) (removeBias b)) * N) := by
     intro k hk
     unfold correlationSpectrumFull
     simp only [Bool.false_eq_true, if_false]
